@@ -173,6 +173,10 @@ def run(chk):
     twins.rule_wrapper_constants(chk, P, 'X3', floor=150)
     twins.rule_arch_siblings(chk, P, 'X6', floor=60)
     twins.rule_token_agreement(chk, P, 'K1', floor=150)
+    # every variant dispatches each accepted (mode, key size, direction) and hash algorithm to kernels of that mode / key size / direction: a
+    # cell of ONE variant that reaches the sibling size's routine makes that variant disagree with the others (rule T2 of C06, all cells)
+    from . import c06 as _c06
+    _c06.run(chk, mode_filter=lambda m: m != 'IMB_CIPHER_NULL', alg_filter=lambda a: True, only_cells=True, ids=('B2', 'B2h', 'B2o'))
     run_r4(chk, P)
     # R3b shared with C20
     from . import c20
